@@ -11,6 +11,7 @@
 //	wait <now>                                        -> <dump>
 //	mutes <now> <labels>                              -> <0|1> <inhibitedBy labels|->
 //	fresh <now> <labels>                              -> <0|1> <0|1>    (verdict of a new inhibitor on the same provider; of the long-lived one)
+//	burst <now> <n> <labels> <start> <end> <timeout>  -> <dump>         (ONE Put call: n new filler alerts {alertname="F", n="<now>x<i>"} firing for 10 min, then the given alert; back-pressure on the subscribers)
 //	reload <now>                                      -> <dump>         (configuration reload: the inhibitor and a dispatcher-like second subscriber are stopped, new ones subscribe to the same provider)
 //
 // labels = name=hexvalue,… sorted by name; dump = labels@start@end@updated@timeout;… sorted
@@ -21,6 +22,7 @@ import (
 	"fmt"
 	"math/rand/v2"
 	"regexp"
+	"runtime"
 	"sort"
 	"strings"
 	"testing"
@@ -232,6 +234,38 @@ func (w *world) exec(line string) string {
 			UpdatedAt: w.t0.Add(time.Duration(now)), Timeout: t[5] == "1",
 		}
 		if err := w.alerts.Put(context.Background(), a); err != nil {
+			return "error"
+		}
+		synctest.Wait()
+		return w.dump()
+	case "burst":
+		// back-pressure on the inhibitor's subscription (a 200-slot channel): n distinct new alerts and, in the same Put call
+		// right behind them, an update of an alert the provider already knows.  The provider -> inhibitor path is lossless:
+		// whatever the state of the channel, the update reaches the inhibitor (checked by the following `mutes`).
+		// With a single P the subscriber does not run while Put fills its channel (1 handed over + 200 buffered = 201).
+		now := hx.Atoi64(t[1])
+		w.sleepTo(now)
+		n := int(hx.Atoi64(t[2]))
+		var batch []*types.Alert
+		for i := range n {
+			fl := model.LabelSet{"alertname": "F", "n": model.LabelValue(fmt.Sprintf("%dx%d", now, i))}
+			w.known[fl.Fingerprint()] = encLabels(fl)
+			batch = append(batch, &types.Alert{
+				Alert: model.Alert{Labels: fl,
+					StartsAt: w.t0.Add(time.Duration(now)), EndsAt: w.t0.Add(time.Duration(now + 10*minute))},
+				UpdatedAt: w.t0.Add(time.Duration(now)),
+			})
+		}
+		ls := decLabels(t[3])
+		w.known[ls.Fingerprint()] = t[3]
+		batch = append(batch, &types.Alert{
+			Alert:     model.Alert{Labels: ls, StartsAt: w.t0.Add(time.Duration(hx.Atoi64(t[4]))), EndsAt: w.t0.Add(time.Duration(hx.Atoi64(t[5])))},
+			UpdatedAt: w.t0.Add(time.Duration(now)), Timeout: t[6] == "1",
+		})
+		old := runtime.GOMAXPROCS(1)
+		err := w.alerts.Put(context.Background(), batch...)
+		runtime.GOMAXPROCS(old)
+		if err != nil {
 			return "error"
 		}
 		synctest.Wait()
@@ -518,6 +552,39 @@ func runCase(t *testing.T, tr *hx.Trace, id int, r *rand.Rand, script []string) 
 				if r.IntN(6) == 0 {
 					do(fmt.Sprintf("fresh %d %s", now, encLabels(ls)))
 				}
+			}
+		}
+		if r.IntN(50) == 0 {
+			// back-pressure: a known source resolves, then fires again, each time right behind 201 new alerts in one Put call
+			// (the inhibitor's subscription channel is full when the update is handed over)
+			src := hx.Pick(r, pool)
+			var srcs []model.LabelSet
+			for _, q := range pool {
+				for _, rl := range rules {
+					if labels.Matchers(toMatchers(rl.src)).Matches(q) {
+						srcs = append(srcs, q)
+						break
+					}
+				}
+			}
+			if len(srcs) > 0 {
+				src = hx.Pick(r, srcs)
+			}
+			now += ms
+			start := now
+			do(fmt.Sprintf("put %d %s %d %d 0", now, encLabels(src), start, now+20*minute))
+			for _, q := range pool {
+				do(fmt.Sprintf("mutes %d %s", now, encLabels(q)))
+			}
+			now += int64(r.IntN(3))*minute + ms
+			do(fmt.Sprintf("burst %d 201 %s %d %d 0", now, encLabels(src), start, now))
+			for _, q := range pool {
+				do(fmt.Sprintf("mutes %d %s", now, encLabels(q)))
+			}
+			now += int64(r.IntN(2))*minute + ms
+			do(fmt.Sprintf("burst %d 201 %s %d %d 0", now, encLabels(src), now, now+20*minute))
+			for _, q := range pool {
+				do(fmt.Sprintf("mutes %d %s", now, encLabels(q)))
 			}
 		}
 		if r.IntN(5) == 0 {
